@@ -23,6 +23,7 @@ from . import e1_threads as E1
 
 PROP = "C12"
 REAL_OPEN = builtins.open
+_INSTANCE: Dict[str, Any] = {}
 RUNS = {"quick": 2000, "thorough": 20000}
 WALL_CAP = {"quick": 300.0, "thorough": 3000.0}
 CORPUS = {"quick": (60, 30000), "thorough": (300, 100000)}
@@ -343,7 +344,10 @@ def execute_cell(cell: Dict[str, Any], tmp: str) -> Dict[str, Any]:
             if route == "parse-static":
                 return PyDBML.parse(stext, *pos, **kw)
             if route == "parse-instance":
-                inst = PyDBML()
+                # one parser instance is kept for the whole run (all cells): PyDBML() ... .parse(a) ... .parse(b)
+                inst = _INSTANCE.get("p")
+                if inst is None:
+                    inst = _INSTANCE["p"] = PyDBML()
                 if type(inst).__name__ == "Database":
                     raise core.HarnessError("PyDBML() returned a Database")
                 return inst.parse(stext, *pos, **kw)
